@@ -651,9 +651,11 @@ impl ViCut {
 		std::mem::swap(&mut self.mode, &mut mode);
 		let result = match motion.unwrap().1 {
 			Motion::Line(addr) => {
-				self.current_buffer().eval_line_addr(addr)
-					.ok_or("Failed to evaluate line address".to_string())
-					.and_then(|line_no| self.exec_ex_normal_lines(line_no, line_no, &seq))
+				match self.current_buffer().eval_line_addr(addr) {
+					Some(line_no) => self.exec_ex_normal_lines(line_no, line_no, &seq),
+					// An invalid address: no line to run on
+					None => Ok(())
+				}
 			}
 			Motion::LineRange(start, end) => {
 				let start_ln = self.current_buffer().eval_line_addr(start);
@@ -663,7 +665,7 @@ impl ViCut {
 						let (start_ln,end_ln) = ordered(start_ln, end_ln);
 						self.exec_ex_normal_lines(start_ln, end_ln, &seq)
 					}
-					_ => Err("Failed to evaluate line address".to_string())
+					_ => Ok(())
 				}
 			}
 			_ => unreachable!()
@@ -674,7 +676,8 @@ impl ViCut {
 	/// Run `seq` with the cursor at the start of each of the lines `start_ln..=end_ln` (zero-indexed), by line number
 	fn exec_ex_normal_lines(&mut self, start_ln: usize, end_ln: usize, seq: &str) -> Result<(),String> {
 		if end_ln >= self.current_buffer().line_count() {
-			return Err("Invalid range".to_string())
+			// An invalid range: like :d and :s, nothing is done
+			return Ok(())
 		}
 		for line in start_ln..=end_ln {
 			// The keys may have deleted lines: past the end, the last line is used
